@@ -133,11 +133,12 @@ func ruleC05c(c *Ctx) {
 
 func ruleC05d(c *Ctx) {
 	p := c.P
-	w := p.fn("(*Route).wrapRequestResponse")
-	if w == nil {
+	pw := p.pairWrapper()
+	if pw == nil || pw.Route < 0 {
 		c.undecided("-", "(*Route).wrapRequestResponse", "-", "not found")
 		return
 	}
+	w := pw.Fn
 	var rq *ssa.Parameter
 	for _, prm := range w.Params {
 		if isHTTPRequestPtr(prm.Type()) {
@@ -166,7 +167,7 @@ func ruleC05d(c *Ctx) {
 				}
 			}
 		case "routeProduces":
-			if b, f, ok := fieldLoad(strip(st.Val)); ok && f.Name() == "Produces" && strip(b) == ssa.Value(w.Params[0]) {
+			if b, f, ok := fieldLoad(strip(st.Val)); ok && f.Name() == "Produces" && strip(b) == ssa.Value(w.Params[pw.Route]) {
 				okP = true
 			}
 		}
@@ -389,7 +390,17 @@ func ruleC05f(c *Ctx) {
 			}
 		})
 		// insertion: func(l []mime, e mime) []mime with a comparison of qualities
-		if fn.Signature.Params().Len() == 2 && isMimeSlice(fn.Signature.Params().At(0).Type()) && isRestfulNamed(fn.Signature.Params().At(1).Type(), "mime") {
+		// (as a function or a method of the element, parameters in any order)
+		nList, nElem := 0, 0
+		for _, prm := range fn.Params {
+			if isMimeSlice(prm.Type()) {
+				nList++
+			}
+			if isRestfulNamed(derefType(prm.Type()), "mime") {
+				nElem++
+			}
+		}
+		if len(fn.Params) == 2 && nList == 1 && nElem == 1 {
 			eachInstr(fn, func(i ssa.Instruction) {
 				bo, ok := i.(*ssa.BinOp)
 				if !ok {
